@@ -9,9 +9,14 @@ EXPLANATION = ("A1 start(): on the path where one of the caller's controls has t
                "them in order; A2 next(): anything but Ok(None) is returned unchanged; on Ok(None) the response control is looked up by "
                "ControlType::PagedResults in the stored result and parsed as PagedResults; an empty cookie removes exactly that control and "
                "ends; a non-empty cookie issues streaming_search(self.base, self.scope, self.filter, self.attrs) on a clone of the saved "
-               "handle (timeout, options copied) whose controls are the saved ones plus PagedResults{size: self.page_size, cookie: the "
-               "parsed cookie}, and splices the new stream's handle and receiver into the running stream; a failed follow-up is returned as "
-               "the error; A3 codec: C19. Not decided: number of pages, exactly-once delivery over a run, termination.")
+               "handle (timeout, options copied) whose controls are - element by element, whatever pushes, pops, truncations, retains the "
+               "code applies to the vector, on an owned copy or through a `&mut` into the saved handle - every saved control followed by one "
+               "PagedResults{size: self.page_size, cookie: the parsed cookie}, and splices the new stream's handle and receiver into the "
+               "running stream; a failed follow-up is returned as the error; on every path next() leaves the fields a follow-up is built "
+               "from (saved handle with its controls / timeout / options, base, scope, filter, attrs, page size) as it found them, so page "
+               "n+1 is asked for like page 2; the saved controls hold no paging control (start() saves them filtered, only start() and "
+               "next() can write the saved handle), which makes a path of next() that finds one infeasible; A3 codec: C19. Not decided: "
+               "number of pages, exactly-once delivery over a run, termination.")
 TRUSTED = ['the server returns cookies as RFC 2696 says', 'C19 (paging control codec)', 'C10 (stream state machine)']
 UNDECIDED = ['exactly-once delivery / number of pages / termination over a run (runtime quantities)']
 ASSUMPTIONS = ['a generic control stands for every element of the control lists']
@@ -123,6 +128,8 @@ def run(ctx):
     # ------------------------------------------------------------------ A1 start
     B = hirq.Body(f, f.body(PR + 'start'))
     ctx.analysed['bodies'].add(B.path)
+    if f.hir.get(HANDLE_FN) is not None:
+        ctx.analysed['bodies'].add(HANDLE_FN)
     # the stream's handle is whatever the accessor hands out: its body is evaluated (today `&mut self.ldap`), so that a store through
     # the reference it returns and a store to stream.ldap are the same store
     outs = absx.Interp(f, B, unroll=1, for_once=True, combinators=True, places=True, inline=lambda cal: cal == HANDLE_FN).run(root=inner(B.root))
